@@ -12,15 +12,20 @@ from vlib import fxpgen
 
 ID = 'C02'
 LEVEL = 'exploration'
-RULE = ('generated (m,t,PRSS) [45% m=1 bulk, rest progs.config(): m 1..7, all t, PRSS on/off] x SecFxp(l,f), f in 2..16 '
-        '(thorough: ..32), l in 2f, 2f+1, .., 4f (<=40 quick, <=64 thorough) x 1..10 independent records: + - neg, six '
-        'comparisons (secure/public int/public float operand), * (secure x secure, a*a, x public int, x public float '
-        'with 0..f+ trailing zero bits), x/y, c/y, 1/y (types with f=l//2 only), x/public, sin cos sincos, trunc by 2^k '
-        '(scalar/list, k=f default and 1..f+3), x**n (n 0..6, thorough ..10), and 2-3 operation compositions; operands '
-        'log-uniform with extremes (0, +-1 unit, +-1.0, +-max, min), whole and non-whole, from generated senders, kept '
-        'in range by construction. Oracle: exact Fractions; tolerance = literal clause of the statement on exact '
-        'operands (1 unit; 2(1+|x|); 16(1+|x|); 4 units vs exact sin/cos; floor-or-ceiling; n(1+|x|)^(n-1)), '
-        'interval-propagated through compositions; all parties must agree. non-trivial = t>=1 and at least one '
+RULE = ('generated (m,t,PRSS) [35% m=1 for value-space bulk; else progs.config(): m 2..7 weighted to 3..5, mostly t>=1 up to '
+        '(m-1)//2, also t=0, PRSS on/off] x SecFxp(l,f), every f in 2..16 (thorough: ..32), l in 2f, 2f+1 (55%), 2f+2..4f, 40 '
+        '(thorough: 64) x 1..12 independent records within a cost budget: + - neg, six comparisons (secure / public int / '
+        'public float operand; equal, adjacent and range-end differences), * (secure x secure, a*a, x public int, x public '
+        'float: random, k/2^j with 0..f+3 fractional bits, whole, tiny, huge, 0.0), x/y, c/y, 1/y (types with f=l//2; '
+        'divisors >= 1 incl. at/next to powers of two, 1/8 in the |y|<1 class F6), x/public, sin cos sincos (|a|<=32 incl. '
+        'multiples of pi/4; 1/8 in the |a|>32 class F7), trunc by 2^k (k=f default and 1..f, scalar/list), x**n (n 0..6, '
+        'thorough ..10), and 2-3 operation compositions (arithmetic, with division, with sin/cos, with comparison/abs/min/'
+        'if_else); operands log-uniform with extremes (0, +-1 unit, +-1.0, +-max, min, around 2^k), whole and non-whole, '
+        'flagged or not, from generated senders, kept in range by construction; plus deterministic grids for every f: '
+        'divisors 2^k-1, 2^k, 2^k+1 with the largest fitting numerator, sin/cos at multiples of pi/4 and at |a|=32. '
+        'Oracle: exact Fractions; tolerance = literal clause of the statement on exact operands (1 unit; 2(1+|x|); '
+        '16(1+|x|); 4 units vs exact sin/cos; floor-or-ceiling; n(1+|x|)^(n-1)), interval-propagated through compositions; '
+        'every created secure value is opened (raw) and all parties must agree. non-trivial = t>=1 and at least one '
         'probabilistic truncation of a non-multiple of 2^f; distinct by case hash')
 ASSUMPTIONS = ['sec_param k=30: statistical masking only; probabilistic zero test (only for l/2 > 30) errs with probability <= 2^-30',
                'operands and results (value +- tolerance) inside [-2^(l-f-1), 2^(l-f-1)); comparison operands with differences in range',
@@ -28,7 +33,7 @@ ASSUMPTIONS = ['sec_param k=30: statistical masking only; probabilistic zero tes
                'public float operands of + - and comparisons are exact multiples of 2^-f; public float divisors get the float rounding of 1/c (one ulp of 1/c times |x|) added to the tolerance',
                'sin/cos reference: 256-bit fixed-point Taylor evaluation with Machin pi (error < 2^-140), not math.sin',
                'x**n for public n >= 0 (negative exponents are reciprocals, covered by the division clause)']
-CASE_TIMEOUT = 150
+CASE_TIMEOUT = 900  # wall-clock watchdog for hangs only; the heaviest cases take seconds on an idle machine
 
 boot(numpy=False)
 
@@ -37,7 +42,7 @@ WEIGHTS = {'add': 3, 'neg': 1, 'cmp': 4, 'mul': 6, 'mulint': 3, 'mulfloat': 5, '
 
 
 def budget(tier):
-    return dict(shards=16, examples=110 if tier == 'quick' else 1500)
+    return dict(shards=16, examples=300 if tier == "quick" else 2000)
 
 
 def enumerate_cases(tier):
@@ -52,14 +57,14 @@ def enumerate_cases(tier):
         for l in (2 * f, 2 * f + 1):
             B = (1 << (l - 1)) - 1
             recs = []
-            for k in sorted({f, f + 1, f + 2, f + 3, l - 2}):
+            for k in sorted({f, f + 1, f + 2, l - 2}):
                 if not f <= k <= l - 2:
                     continue
                 for dy in (-1, 0, 1):
                     y = (1 << k) + dy
                     if not one <= y <= B:
                         continue
-                    for sy, sx in ((1, 1), (-1, 1), (1, -1)):
+                    for sy, sx in ((1, 1), (-1, 1)):
                         r = fxpgen.fit(['div', ['s', sx * B, 0, False], ['s', sy * y, 0, False]], l, f)
                         if r is not None:
                             recs.append(r)
@@ -71,9 +76,9 @@ def enumerate_cases(tier):
         B = (1 << (l - 1)) - 1
         pi = Fr(fxp.pi_scaled(), 1 << 256)
         vals = []
-        for k in range(-10, 11):
+        for k in range(-8, 9):
             a = round(k * pi / 4 * one)
-            vals += [a - 1, a, a + 1]
+            vals += [a, a + 1] if k % 2 else [a - 1, a]
         vals += [32 * one, -32 * one, 32 * one - 1, 1 - 32 * one]
         vals = [v for v in vals if -B <= v <= B and abs(v) <= 32 * one]
         recs = [['sincos', ['s', v, 0, False]] for v in vals]
